@@ -1,6 +1,7 @@
 (* C19 -- boolean checkers (the ok_ functions) and the rows evaluated by the harness:
    [model agrees with the observation; idempotent; alias_preserved; mode_enforced;
-    untouched_preserved; dict_roundtrip; twin_same; slots_preserved; envelope_roundtrip] *)
+    untouched_preserved; dict_roundtrip; twin_same; slots_preserved; envelope_roundtrip;
+    sequence_independent] *)
 From Coq Require Import ZArith List String Bool.
 From RP Require Import Common.Eqb Descr.Types Descr.Model.
 Import ListNotations.
@@ -117,7 +118,7 @@ Record td_obs := mkTdObs {
   o_twx : option descr;                 (* the twin given to the constructor (None: no deprecated name used) *)
   o_tw  : option (perr + descr) }.      (* TaskDescription(from_dict=twin).verify() *)
 
-Definition pad_slots_env : list bool := [true; true].
+Definition pad_slots_env : list bool := [true; true; true].
 
 Definition c19_td_row (T : table) (x : descr) (o : td_obs) : list bool :=
   [ descr_eqb (construct T x) (o_c o)
@@ -211,9 +212,13 @@ Definition ok_placement (ss : list slot) (stages : list (perr + list slot)) : bo
                      | inl _ => false
                      end) stages.
 
-Definition c19_slots_row (os : list sop) (ss : list slot) (obs : list (perr + list slot)) : list bool :=
+Definition c19_slots_row (os : list sop) (ss : list slot) (obs : list (perr + list slot))
+  (input_after : list slot) (rerun_same : bool) : list bool :=
   [ eqb_list stage_eqb (run_sops os ss) obs; true; true; true; true; true; true;
-    ok_placement ss obs; true ].
+    ok_placement ss obs; true;
+    (* the conversions leave their input alone (measured after the outputs were mutated) and
+       give the same result when applied to it again *)
+    eqb_list slot_eqb ss input_after && rerun_same ].
 
 (* ---- envelopes ---- *)
 Definition kwargs_eqb : kwargs -> kwargs -> bool := eqb_list (eqb_prod String.eqb atom_eqb).
@@ -242,7 +247,7 @@ Definition c19_env_row (callable : bool) (args : list atom) (kw : option kwargs)
     | inr (_, a, k), inr (a', k', _) => eqb_list atom_eqb a a' && eqb_option kwargs_eqb k k'
     | _, _ => false
     end; true; true; true; true; true; true; true;
-    ok_envelope callable args kw o ].
+    ok_envelope callable args kw o; true ].
 
 (* ---- sequences of task creations from one stateful callable ----
    a function value is identified by the state it carries (an integer the callable reports
@@ -279,7 +284,7 @@ Definition c19_envseq_row (decor : bool) (f_dec : Z) (steps : list (step Z)) (ob
                          | _, _ => false
                          end) (transport_seq_id decor f_dec steps) obs;
     true; true; true; true; true; true; true;
-    forallb2 ok_envelope_step steps obs ].
+    forallb2 ok_envelope_step steps obs; true ].
 
 (* ---- serialize_obj on callables of every kind ----
    inputs measured by the harness on the callable itself: does dill.dumps(f) succeed (by
@@ -324,4 +329,23 @@ Definition c19_envk_row (val_ok ref_ok pk_ok callable : bool) (args : list atom)
        | _, _ => false
        end;
     true; true; true; true; true; true; true;
-    ok_serialize val_ok ref_ok pk_ok so && ok_envelope_k val_ok ref_ok pk_ok callable args kw o ].
+    ok_serialize val_ok ref_ok pk_ok so && ok_envelope_k val_ok ref_ok pk_ok callable args kw o; true ].
+
+(* ---- sequences of descriptions in one process ----
+   observed: the final _data of every description of the sequence.  Each must be what the
+   per-description model gives when ONLY the operations on that description are run: it is
+   what it would be if it were the only one ever built. *)
+Definition dseq_funs (pd : bool) (T : table) : (descr -> descr) * (descr -> perr + descr) :=
+  (construct T, if pd then pd_verify T else verify T).
+
+Definition ok_independent (pd : bool) (T : table) (ops : list dop) (obs : list (nat * descr)) : bool :=
+  let '(mk, vf) := dseq_funs pd T in
+  forallb (fun o => eqb_option descr_eqb
+                      (slot_get (fst o) (drun mk vf (filter (touches (fst o)) ops) []))
+                      (Some (snd o))) obs.
+
+Definition c19_dseq_row (pd : bool) (T : table) (ops : list dop) (obs : list (nat * descr)) : list bool :=
+  let '(mk, vf) := dseq_funs pd T in
+  [ forallb (fun o => eqb_option descr_eqb (slot_get (fst o) (drun mk vf ops [])) (Some (snd o))) obs;
+    true; true; true; true; true; true; true; true;
+    ok_independent pd T ops obs ].
